@@ -470,6 +470,18 @@ theorem layout_default_instance (rd : Rd) :
   ⟨svFieldL_default rd, vcpuAddrL_default rd, decodeStatusL_default, processorStatusL_default rd,
    iobufBytesL_default rd, p2pTableL_default rd, getSystemInfoL_default rd⟩
 
+/-- **Which cores answer.** In the machine specification the monitor answers in every state, an application core
+exactly in the states wait, c_main, run, sync0, sync1, pause (members of the generated state enumeration) - so the
+idle state, in particular, does not answer; the decoders of this file read through the monitor only (their sole
+input is `rd`). -/
+theorem monitor_always_answers :
+    (∀ s, coreAnswers 0 s = true) ∧ (∀ p s, p ≠ 0 → (coreAnswers p s = true ↔ s ∈ [5, 6, 7, 8, 9, 10])) ∧
+    (∀ s ∈ SARK_ALIVE, validState s = true) ∧ coreAnswers 1 APPSTATE_IDLE = false := by
+  refine ⟨fun s => rfl, ?_, by decide, by decide⟩
+  intro p s hp
+  have : (p == 0) = false := by simpa using hp
+  simp [coreAnswers, this, SARK_ALIVE]
+
 /-! ## the oracles the harness evaluates on the implementation's outputs -/
 
 /-- **`sysinfo_ok` is exact.** The predicate the harness evaluates on the `SystemInfo` returned by the real
